@@ -385,6 +385,11 @@ def check(case, rec):
     import rpyc
     cfg = case["config"]
     steps = [s for s in case["steps"] if cfg != "default" or s[0] in DEFAULT_OK]
+    # a builtin left operand that inspects the concrete (buffer) type of its right operand cannot be served by any proxy:
+    # `b"" + bytearray_proxy`, `b"%s" % proxy` (only bytes do this with the world's targets)
+    steps = [s for s in steps if not (s[0] == "binop" and s[4] and s[3][0] == "v" and s[3][1][0] in ("bytes", "bytesrep"))]
+    if cfg != "classic":     # an exposed_ twin stands in for a missing plain attribute by policy (C06): keep the plain one alive
+        steps = [s for s in steps if not (s[0] == "delattr" and s[2] == "reading")]
     if cfg == "public":      # that mode permits names that do not start with an underscore
         steps = [s for s in steps if not (s[0] in ("getattr", "setattr", "delattr", "method") and str(s[2]).startswith("_"))]
     twin_objs = make_world()
